@@ -110,6 +110,23 @@ func valueMenu() []val {
 	return out
 }
 
+// reentryCache: a CacheEr whose Store, once the inner cache holds the entry, runs hook (once at a time).
+type reentryCache struct {
+	inner  valid.CacheEr
+	hook   func()
+	inside bool
+}
+
+func (r *reentryCache) Load(k interface{}) (interface{}, bool) { return r.inner.Load(k) }
+func (r *reentryCache) Store(k, v interface{}) {
+	r.inner.Store(k, v)
+	if !r.inside && r.hook != nil {
+		r.inside = true
+		r.hook()
+		r.inside = false
+	}
+}
+
 type carrierFn struct {
 	name string
 	ok   func(v reflect.Value) bool
@@ -237,6 +254,34 @@ func run(c *runner.Ctx) {
 		p.Elem().Field(0).Set(v)
 		_ = valid.Struct(p.Interface(), valid.RM{"F": "ge=100|zz,le=-100|zz"})
 		return valid.Struct(p.Interface())
+	}})
+
+	// a second caller right after the type's cache entry became visible (round 12): the tagged type meets a fresh cache
+	// whose Store - after the entry is in - makes the same call once more, the way a second goroutine would that finds
+	// the entry the moment it is published; both callers get the verdict every other carrier gets
+	// (the library takes a struct-type cache once per process: a delegating cache is installed, its inner cache exchanged)
+	baseCache := valid.NewLRU()
+	swap := &reentryCache{inner: baseCache}
+	valid.SetStructTypeCache(swap)
+	cars = append(cars, carrierFn{"struct-tag-second-caller-right-after-the-cache-store", anyV, func(v reflect.Value, rl string) error {
+		if !carrier.TagOK(rl) {
+			return tagRun(v, rl)
+		}
+		st := carrier.TagType(v.Type(), rl)
+		p := reflect.New(st)
+		p.Elem().Field(0).Set(v)
+		var second error
+		ran := false
+		rc := &reentryCache{inner: valid.NewLRU(4)}
+		rc.hook = func() { ran, second = true, valid.Struct(p.Interface()) }
+		swap.inner = rc
+		defer func() { swap.inner = baseCache }()
+		first := valid.Struct(p.Interface())
+		if ran && fmt.Sprint(first) != fmt.Sprint(second) {
+			// (a text that names no rule, so that it matches no expectation)
+			return fmt.Errorf("the second caller, right after the store, and the storing caller disagree: %d and %d bytes of error text", len(fmt.Sprint(second)), len(fmt.Sprint(first)))
+		}
+		return first
 	}})
 
 	// every public spelling of each entry point (function forms, deprecated aliases, validator objects, forms that take
@@ -456,7 +501,7 @@ func main() {
 	runner.Main(runner.Config{
 		Property:  "C18",
 		Technique: "relational bounded-exhaustive enumeration: same rule list and value through every carrier, violated-rule sets compared",
-		Rule: "rule lists = every single rule of a 140-entry menu (size rules with bounds [0..4]^2, every format rule with arguments) + ordered pairs of a reduced menu, each rule instance tagged by a unique message; " +
+		Rule: "(round 12: pairs with in-lists that name the zero value, bool values, and the carrier second-caller-right-after-the-cache-store) rule lists = every single rule of a 140-entry menu (size rules with bounds [0..4]^2, every format rule with arguments) + ordered pairs of a reduced menu, each rule instance tagged by a unique message; " +
 			"values = numeric window [-6..9] in 8 kinds + all strings of length<=3 over {a,1,中,space,/,-,.} + format witnesses; carriers = Var, struct tag, struct per-call rule, map[string]T, map[string]interface{}, []map, " +
 			"URL (single/first/middle/last parameter raw, per-value QueryEscape (+ for space), PathEscape, whole-URL escaped); case = (rule list, value); transitions = calls; non-trivial = non-empty violated set",
 		Assumptions: []string{"URL values containing & or = are excluded; values containing + % # ? are carried in the percent-encoded URL forms only (DESIGN §7)", "map iteration order irrelevant: one rule key per call"},
